@@ -8,6 +8,8 @@ mod common;
 mod fwsim;
 mod mach;
 mod props_fw;
+mod props_ref;
+mod refmodel;
 mod sup;
 
 use sup::{Engine, Tier};
@@ -17,6 +19,7 @@ fn engine_for(prop: &str) -> Option<Box<dyn Engine>> {
     Some(match prop {
         "C01" => Box::new(FwEngine(props_fw::C01)),
         "C04" => Box::new(FwEngine(props_fw::C04)),
+        "C05" => Box::new(FwEngine(props_ref::C05)),
         _ => return None,
     })
 }
